@@ -149,6 +149,129 @@ pub proof fn fnl_to_mont(a: int, r: int, i: int, n: int)
     fnl_cancel(a, r, i, n);
     fnl_small_mod(a, n);
 }
+// ---- digit-wise form of 256-bit add/sub results (schoolbook carries/borrows). The value-level contracts of u256_add/u256_sub are single
+// equations with coefficients 2^64..2^192 over twelve limbs; when an obligation is false the solver has to find limbs satisfying them and
+// its integer search on those equations exhausts the resource limit. The four small rows per operation make that search immediate.
+// (No precondition on which of the two operations produced r: the rows are implications.) ----
+pub open spec fn fnl_bw(a: int, b: int, c: int) -> int { if a - b - c < 0 { 1int } else { 0int } }
+pub open spec fn fnl_cy(a: int, b: int, c: int) -> int { if a + b + c >= 0x1_0000_0000_0000_0000int { 1int } else { 0int } }
+pub open spec fn fnl_sub_dig(a: Seq<u64>, b: Seq<u64>, r: Seq<u64>) -> bool {
+    let b0 = fnl_bw(a[0] as int, b[0] as int, 0);
+    let b1 = fnl_bw(a[1] as int, b[1] as int, b0);
+    let b2 = fnl_bw(a[2] as int, b[2] as int, b1);
+    let b3 = fnl_bw(a[3] as int, b[3] as int, b2);
+    r[0] as int == a[0] as int - b[0] as int + 0x1_0000_0000_0000_0000int * b0
+    && r[1] as int == a[1] as int - b[1] as int - b0 + 0x1_0000_0000_0000_0000int * b1
+    && r[2] as int == a[2] as int - b[2] as int - b1 + 0x1_0000_0000_0000_0000int * b2
+    && r[3] as int == a[3] as int - b[3] as int - b2 + 0x1_0000_0000_0000_0000int * b3
+    && (b3 == 1) == (val4(a) < val4(b))
+}
+pub open spec fn fnl_add_dig(a: Seq<u64>, b: Seq<u64>, r: Seq<u64>) -> bool {
+    let c0 = fnl_cy(a[0] as int, b[0] as int, 0);
+    let c1 = fnl_cy(a[1] as int, b[1] as int, c0);
+    let c2 = fnl_cy(a[2] as int, b[2] as int, c1);
+    let c3 = fnl_cy(a[3] as int, b[3] as int, c2);
+    r[0] as int == a[0] as int + b[0] as int - 0x1_0000_0000_0000_0000int * c0
+    && r[1] as int == a[1] as int + b[1] as int + c0 - 0x1_0000_0000_0000_0000int * c1
+    && r[2] as int == a[2] as int + b[2] as int + c1 - 0x1_0000_0000_0000_0000int * c2
+    && r[3] as int == a[3] as int + b[3] as int + c2 - 0x1_0000_0000_0000_0000int * c3
+    && (c3 == 1) == (val4(a) + val4(b) >= r256())
+}
+pub open spec fn fnl_is_sub(a: Seq<u64>, b: Seq<u64>, r: Seq<u64>) -> bool { val4(r) - val4(a) + val4(b) == 0 || val4(r) - val4(a) + val4(b) == r256() }
+pub open spec fn fnl_is_add(a: Seq<u64>, b: Seq<u64>, r: Seq<u64>) -> bool { val4(r) - val4(a) - val4(b) == 0 || val4(r) - val4(a) - val4(b) == -r256() }
+pub proof fn fnl_sub_digits(a: Seq<u64>, b: Seq<u64>, r: Seq<u64>)
+    requires a.len() == 4, b.len() == 4, r.len() == 4, fnl_is_sub(a, b, r),
+    ensures fnl_sub_dig(a, b, r)
+{
+    lemma_val4_bounds(r); lemma_val4_bounds(a); lemma_val4_bounds(b);
+    let b0 = fnl_bw(a[0] as int, b[0] as int, 0);
+    let b1 = fnl_bw(a[1] as int, b[1] as int, b0);
+    let b2 = fnl_bw(a[2] as int, b[2] as int, b1);
+    let b3 = fnl_bw(a[3] as int, b[3] as int, b2);
+    let r0 = (a[0] as int - b[0] as int + 0x1_0000_0000_0000_0000int * b0) as u64;
+    let r1 = (a[1] as int - b[1] as int - b0 + 0x1_0000_0000_0000_0000int * b1) as u64;
+    let r2 = (a[2] as int - b[2] as int - b1 + 0x1_0000_0000_0000_0000int * b2) as u64;
+    let r3 = (a[3] as int - b[3] as int - b2 + 0x1_0000_0000_0000_0000int * b3) as u64;
+    let rp = seq![r0, r1, r2, r3];
+    assert(val4(rp) - b3 * r256() == val4(a) - val4(b));
+    lemma_val4_bounds(rp);
+    assert(val4(rp) == val4(r));
+    lemma_val4_inj(r, rp);
+}
+pub proof fn fnl_add_digits(a: Seq<u64>, b: Seq<u64>, r: Seq<u64>)
+    requires a.len() == 4, b.len() == 4, r.len() == 4, fnl_is_add(a, b, r),
+    ensures fnl_add_dig(a, b, r)
+{
+    lemma_val4_bounds(r); lemma_val4_bounds(a); lemma_val4_bounds(b);
+    let c0 = fnl_cy(a[0] as int, b[0] as int, 0);
+    let c1 = fnl_cy(a[1] as int, b[1] as int, c0);
+    let c2 = fnl_cy(a[2] as int, b[2] as int, c1);
+    let c3 = fnl_cy(a[3] as int, b[3] as int, c2);
+    let r0 = (a[0] as int + b[0] as int - 0x1_0000_0000_0000_0000int * c0) as u64;
+    let r1 = (a[1] as int + b[1] as int + c0 - 0x1_0000_0000_0000_0000int * c1) as u64;
+    let r2 = (a[2] as int + b[2] as int + c1 - 0x1_0000_0000_0000_0000int * c2) as u64;
+    let r3 = (a[3] as int + b[3] as int + c2 - 0x1_0000_0000_0000_0000int * c3) as u64;
+    let rp = seq![r0, r1, r2, r3];
+    assert(val4(rp) + c3 * r256() == val4(a) + val4(b));
+    lemma_val4_bounds(rp);
+    assert(val4(rp) == val4(r));
+    lemma_val4_inj(r, rp);
+}
+// rows for a given result r of an operation on a, b
+pub proof fn fnl_digits(a: Seq<u64>, b: Seq<u64>, r: Seq<u64>)
+    requires a.len() == 4, b.len() == 4, r.len() == 4,
+    ensures fnl_is_sub(a, b, r) ==> fnl_sub_dig(a, b, r), fnl_is_add(a, b, r) ==> fnl_add_dig(a, b, r),
+{
+    if fnl_is_sub(a, b, r) { fnl_sub_digits(a, b, r); }
+    if fnl_is_add(a, b, r) { fnl_add_digits(a, b, r); }
+}
+// rows for a given result r of an operation on a and any second operand (the annotation does not have to name the constant the code passes)
+pub proof fn fnl_digits_any(a: Seq<u64>, r: Seq<u64>)
+    requires a.len() == 4, r.len() == 4,
+    ensures forall|b: Seq<u64>| #![trigger val4(b)] b.len() == 4 ==> (fnl_is_sub(a, b, r) ==> fnl_sub_dig(a, b, r)) && (fnl_is_add(a, b, r) ==> fnl_add_dig(a, b, r)),
+{
+    assert forall|b: Seq<u64>| #![trigger val4(b)] b.len() == 4 implies (fnl_is_sub(a, b, r) ==> fnl_sub_dig(a, b, r)) && (fnl_is_add(a, b, r) ==> fnl_add_dig(a, b, r)) by {
+        fnl_digits(a, b, r);
+    }
+}
+// rows for every result of an operation on a and any second operand
+pub proof fn fnl_digits_from(a: Seq<u64>)
+    requires a.len() == 4,
+    ensures forall|b: Seq<u64>, r: Seq<u64>| #![trigger val4(b), val4(r)] b.len() == 4 && r.len() == 4 ==> (fnl_is_sub(a, b, r) ==> fnl_sub_dig(a, b, r)) && (fnl_is_add(a, b, r) ==> fnl_add_dig(a, b, r)),
+{
+    assert forall|b: Seq<u64>, r: Seq<u64>| #![trigger val4(b), val4(r)] b.len() == 4 && r.len() == 4 implies (fnl_is_sub(a, b, r) ==> fnl_sub_dig(a, b, r)) && (fnl_is_add(a, b, r) ==> fnl_add_dig(a, b, r)) by {
+        fnl_digits(a, b, r);
+    }
+}
+// residues of values below 3n without a quotient variable (the solver decides `%` terms by case split instead of a search for the quotient)
+pub open spec fn fnl_red3(x: int, n: int) -> int { if x >= 2 * n { x - 2 * n } else if x >= n { x - n } else { x } }
+pub proof fn fnl_mod3(x: int, n: int) requires 0 <= x < 3 * n ensures x % n == fnl_red3(x, n)
+{
+    fnl_mod_add_mult(x, -1, n); fnl_mod_add_mult(x, -2, n);
+    fnl_small_mod(fnl_red3(x, n), n);
+}
+// ---- results of the add/sub reductions ----
+pub proof fn fnl_add_post(a: int, b: int, v: int, n: int)
+    requires 0 <= a, 0 <= b, n > 0,
+        a + b >= n ==> v == a + b - n,
+        a + b < n ==> v == a + b,
+    ensures v % n == (a + b) % n, a + b < 2 * n ==> v == (a + b) % n,
+{
+    let s = a + b;
+    fnl_mod_add_mult(s, -1, n);
+    if 0 <= s - n < n { fnl_small_mod(s - n, n); }
+    if s < n { fnl_small_mod(s, n); }
+}
+pub proof fn fnl_sub_post(a: int, b: int, v: int, n: int)
+    requires 0 <= a < n, 0 <= b < n,
+        a >= b ==> v == a - b,
+        a < b ==> v == a - b + n,
+    ensures v == (a - b) % n,
+{
+    let d = a - b;
+    fnl_mod_add_mult(d, 1, n);
+    if d >= 0 { fnl_small_mod(d, n); } else { fnl_small_mod(d + n, n); }
+}
 // ---- powers ----
 pub proof fn fnl_pow_range(x: int, e: nat, m: int) requires m > 0 ensures 0 <= pow_mod(x, e, m) < m decreases e
 {
@@ -195,6 +318,91 @@ pub proof fn fnl_bits(w: u64)
     assert(w < 0x8000000000000000u64 ==> (w << 1) == 2 * w) by(bit_vector);
     assert(w >= 0x8000000000000000u64 ==> (w << 1) == 2 * (w - 0x8000000000000000u64)) by(bit_vector);
 }
+//@section spec local
+// ---- mont_mul: stage lemmas. Their requires/ensures are linear in the limbs apart from the products that the contracts of u256_mul state, and the
+// congruence is hidden behind an opaque predicate, so that the verification condition of the exec function contains no nonlinear reasoning step
+// (a wrong step is reported as the first false `requires` conjunct below) ----
+#[verifier::opaque]
+pub open spec fn fn_mont_quot(a: int, b: int, q: int) -> bool { (q * r256()) % N() == (a * b) % N() }
+// the linear facts about the constants that the bodies of mont_mul, fn_add, fn_sub need
+proof fn fnl_lin()
+    ensures val4(SM2_N@) == N(), val4(SM2_N_NEG@) == r256() - N(), 0 < N(), N() < r256(), r256() < 2 * N(),
+{
+    lemma_fn_consts(); lemma_params();
+}
+// z = a * b; t1 = low(z) * n'; t2 = low(t1) * n; s = z + t2 (carry c): the high half of s (with c on top) is the Montgomery quotient, below 2n
+proof fn fnl_mont_stage(a: Seq<u64>, b: Seq<u64>, z: Seq<u64>, zl: Seq<u64>, t1: Seq<u64>, tw: Seq<u64>, t2: Seq<u64>, s: Seq<u64>, c: bool, r: Seq<u64>)
+    requires a.len() == 4, b.len() == 4, z.len() == 8, zl.len() == 4, t1.len() == 8, tw.len() == 4, t2.len() == 8, s.len() == 8, r.len() == 4,
+        val4(a) < N(), val4(b) < N(),
+        val8(z) == val4(a) * val4(b) || val8(z) == val4(b) * val4(a),
+        zl[0] == z[0], zl[1] == z[1], zl[2] == z[2], zl[3] == z[3],
+        val8(t1) == val4(zl) * val4(SM2_N_PRIME@) || val8(t1) == val4(SM2_N_PRIME@) * val4(zl),
+        tw[0] == t1[0], tw[1] == t1[1], tw[2] == t1[2], tw[3] == t1[3],
+        val8(t2) == val4(tw) * val4(SM2_N@) || val8(t2) == val4(SM2_N@) * val4(tw),
+        val8(s) + (if c { r256() * r256() } else { 0 }) == val8(z) + val8(t2),
+        r[0] == s[4], r[1] == s[5], r[2] == s[6], r[3] == s[7],
+    ensures fn_mont_quot(val4(a), val4(b), val4(r) + (if c { r256() } else { 0 })),
+        0 <= val4(r) + (if c { r256() } else { 0 }) < 2 * N(),
+{
+    assert(val4(b) * val4(a) == val4(a) * val4(b) && val4(SM2_N_PRIME@) * val4(zl) == val4(zl) * val4(SM2_N_PRIME@) && val4(SM2_N@) * val4(tw) == val4(tw) * val4(SM2_N@)) by(nonlinear_arith);
+    lemma_fn_consts(); lemma_params();
+    lemma_val4_bounds(a); lemma_val4_bounds(b);
+    let av = val4(a); let bv = val4(b);
+    let tl = val4(tw);
+    let q: int = val4(r) + (if c { r256() } else { 0 });
+    assert(zl =~= z.subrange(0, 4));
+    assert(tw =~= t1.subrange(0, 4));
+    assert(r =~= s.subrange(4, 8));
+    lemma_val4_bounds(z.subrange(0, 4)); lemma_val4_bounds(z.subrange(4, 8));
+    lemma_val4_bounds(t1.subrange(0, 4)); lemma_val4_bounds(t1.subrange(4, 8));
+    lemma_val4_bounds(s.subrange(0, 4)); lemma_val4_bounds(s.subrange(4, 8));
+    let rr = r256();
+    let np = val4(SM2_N_PRIME@);
+    let zz = val8(z); let zlv = val4(z.subrange(0, 4)); let zh = val4(z.subrange(4, 8));
+    let t1h = val4(t1.subrange(4, 8));
+    let sl = val4(s.subrange(0, 4));
+    assert(zz == av * bv);
+    assert(zz >= 0) by(nonlinear_arith) requires zz == av * bv, av >= 0, bv >= 0;
+    assert(zz == zh * rr + zlv) by(nonlinear_arith) requires zz == zlv + rr * zh;
+    lemma_fundamental_div_mod_converse(zz, rr, zh, zlv);
+    assert(val8(t1) == zlv * np);
+    assert(zlv * np == t1h * rr + tl) by(nonlinear_arith) requires zlv * np == tl + rr * t1h;
+    lemma_fundamental_div_mod_converse(zlv * np, rr, t1h, tl);
+    fnl_mont_div(zz, zlv, tl, np, N(), rr);
+    let big = zz + tl * N();
+    assert(val8(t2) == tl * N());
+    let sh = val4(r);
+    assert(sl + rr * sh + (if c { rr * rr } else { 0 }) == big);
+    assert(big == q * rr + sl && big == rr * q + sl) by(nonlinear_arith)
+        requires sl + rr * sh + (if c { rr * rr } else { 0 }) == big, q == sh + (if c { rr } else { 0 });
+    lemma_fundamental_div_mod_converse(big, rr, q, sl);
+    assert(sl == 0);
+    assert(av * bv + tl * N() == rr * q);
+    fnl_mont_bound(av, bv, tl, N(), rr, q);
+    fnl_mont_congr(av * bv, tl, q, 0, q, N(), rr);
+    reveal(fn_mont_quot);
+}
+// final conditional subtraction and decoding
+proof fn fnl_mont_final(a: int, b: int, q: int, res: int)
+    requires fn_mont_quot(a, b, q), 0 <= q < 2 * N(),
+        q < N() ==> res == q,
+        q >= N() ==> res == q - N(),
+    ensures 0 <= res < N(), (res * r256()) % N() == (a * b) % N(),
+        (res * RINV_N()) % N() == (((a * RINV_N()) % N()) * ((b * RINV_N()) % N())) % N(),
+        res == (a * b * RINV_N()) % N(),
+{
+    lemma_params();
+    reveal(fn_mont_quot);
+    let rr = r256(); let n = N();
+    if q >= n {
+        assert((q - n) * rr == q * rr + (0 - rr) * n) by(nonlinear_arith);
+        fnl_mod_add_mult(q * rr, 0 - rr, n);
+    }
+    fnl_mont_decode(a, b, res, rr, RINV_N(), n);
+    fnl_cancel(res, rr, RINV_N(), n);
+    fnl_mod_mul_cong(res * rr, a * b, RINV_N(), n);
+    fnl_small_mod(res, n);
+}
 //@section code gm-sm2/src/fields/fn64.rs
 fn fn_add(a: &U256, b: &U256) -> (r: U256)
     requires val4(a@) + val4(b@) < r256() + N()
@@ -202,15 +410,27 @@ fn fn_add(a: &U256, b: &U256) -> (r: U256)
         val4(a@) + val4(b@) < 2 * N() ==> val4(r@) == (val4(a@) + val4(b@)) % N(),
 {
     proof {
-        lemma_fn_consts(); lemma_params();
+        fnl_lin();
         lemma_val4_bounds(a@); lemma_val4_bounds(b@);
         assert forall|s: Seq<u64>| s.len() == 4 implies 0 <= #[trigger] val4(s) < r256() by { lemma_val4_bounds(s); }
-        let s = val4(a@) + val4(b@);
-        fnl_mod_add_mult(s, -1, N());
-        if 0 <= s - N() < N() { fnl_small_mod(s - N(), N()); }
-        if s < N() { fnl_small_mod(s, N()); }
+        // whatever value v the reduction below yields, it is decided by these two linear facts
+        assert forall|v: int| ((val4(a@) + val4(b@) >= N() ==> v == val4(a@) + val4(b@) - N()) && (val4(a@) + val4(b@) < N() ==> v == val4(a@) + val4(b@)))
+            implies #[trigger] (v % N()) == (val4(a@) + val4(b@)) % N() && (val4(a@) + val4(b@) < 2 * N() ==> v == (val4(a@) + val4(b@)) % N()) by {
+            fnl_add_post(val4(a@), val4(b@), v, N());
+        }
+        // the residue of a + b (< 3n) without a quotient variable
+        fnl_mod3(val4(a@) + val4(b@), N());
     }
     let (r, c) = u256_add(a, b);
+    proof {
+        fnl_digits(a@, b@, r@);
+        fnl_digits(a@, a@, r@); fnl_digits(b@, b@, r@);    // (rows also for a wrong operand: refuted by a witness instead of a search)
+        // checkpoint: what the first operation has to deliver (a wrong first operation is reported here, once, and not at every return below)
+        assert(val4(r@) + (if c { r256() } else { 0 }) == val4(a@) + val4(b@));
+        fnl_digits_from(r@);
+        // boundary point of the comparison below: hand the limbs to the solver (val4 is injective)
+        if val4(r@) == val4(SM2_N@) { lemma_val4_inj(r@, SM2_N@); }
+    }
     if c {
         // a + b - n = (a + b - 2^256) + (2^256 - n)
         return u256_add(&r, &SM2_N_NEG).0;
@@ -227,18 +447,24 @@ fn fn_sub(a: &U256, b: &U256) -> (r: U256)
     ensures val4(r@) == (val4(a@) - val4(b@)) % N(),
 {
     proof {
-        lemma_fn_consts(); lemma_params();
+        fnl_lin();
         lemma_val4_bounds(a@); lemma_val4_bounds(b@);
-        let d = val4(a@) - val4(b@);
-        fnl_mod_add_mult(d, 1, N());
-        if d >= 0 { fnl_small_mod(d, N()); } else { fnl_small_mod(d + N(), N()); }
     }
     let (mut r, c) = u256_sub(a, b);
-    proof { lemma_val4_bounds(r@); }
+    let ghost r0 = r@;
+    proof {
+        lemma_val4_bounds(r@); fnl_digits(a@, b@, r@); fnl_digits(b@, a@, r@);
+        // checkpoint: what the first operation has to deliver
+        assert(val4(r@) - (if c { r256() } else { 0 }) == val4(a@) - val4(b@));
+    }
     if c {
         r = u256_sub(&r, &SM2_N_NEG).0
     }
-    proof { lemma_val4_bounds(r@); }
+    proof {
+        lemma_val4_bounds(r@);
+        fnl_digits_any(r0, r@);
+        fnl_sub_post(val4(a@), val4(b@), val4(r@), N());
+    }
     r
 }
 
@@ -305,7 +531,6 @@ fn mont_mul(a: &U256, b: &U256) -> (res: U256)
     // t = low(t) * n
     let t_low = [t[0], t[1], t[2], t[3]];
     t = u256_mul(&t_low, &SM2_N);
-    let ghost t2 = t@;
 
     // z = z + t
     let (sum, c) = u512_add(&z, &t);
@@ -314,42 +539,13 @@ fn mont_mul(a: &U256, b: &U256) -> (res: U256)
     // r = high(r)
     r = [z[4], z[5], z[6], z[7]];
     let ghost r0 = r@;
-    let ghost av = val4(a@);
-    let ghost bv = val4(b@);
-    let ghost tl = val4(t1@.subrange(0, 4));
     let ghost q: int = val4(r0) + (if c { r256() } else { 0 });
     proof {
-        lemma_fn_consts(); lemma_params();
-        lemma_val4_bounds(a@); lemma_val4_bounds(b@);
-        assert(z_low@ =~= z0.subrange(0, 4));
-        assert(t_low@ =~= t1@.subrange(0, 4));
-        assert(r0 =~= sum@.subrange(4, 8));
-        lemma_val4_bounds(z0.subrange(0, 4)); lemma_val4_bounds(z0.subrange(4, 8));
-        lemma_val4_bounds(t1@.subrange(0, 4)); lemma_val4_bounds(t1@.subrange(4, 8));
-        lemma_val4_bounds(sum@.subrange(0, 4)); lemma_val4_bounds(sum@.subrange(4, 8));
-        let rr = r256();
-        let np = val4(SM2_N_PRIME@);
-        let zz = val8(z0); let zl = val4(z0.subrange(0, 4)); let zh = val4(z0.subrange(4, 8));
-        let t1h = val4(t1@.subrange(4, 8));
-        let sl = val4(sum@.subrange(0, 4));
-        assert(zz == av * bv);
-        assert(zz >= 0) by(nonlinear_arith) requires zz == av * bv, av >= 0, bv >= 0;
-        assert(zz == zh * rr + zl) by(nonlinear_arith) requires zz == zl + rr * zh;
-        lemma_fundamental_div_mod_converse(zz, rr, zh, zl);
-        assert(val8(t1@) == zl * np);
-        assert(zl * np == t1h * rr + tl) by(nonlinear_arith) requires zl * np == tl + rr * t1h;
-        lemma_fundamental_div_mod_converse(zl * np, rr, t1h, tl);
-        fnl_mont_div(zz, zl, tl, np, N(), rr);
-        let big = zz + tl * N();
-        assert(val8(t2) == tl * N());
-        let sh = val4(r0);
-        assert(sl + rr * sh + (if c { rr * rr } else { 0 }) == big);
-        assert(big == q * rr + sl && big == rr * q + sl) by(nonlinear_arith)
-            requires sl + rr * sh + (if c { rr * rr } else { 0 }) == big, q == sh + (if c { rr } else { 0 });
-        lemma_fundamental_div_mod_converse(big, rr, q, sl);
-        assert(sl == 0);
-        assert(av * bv + tl * N() == rr * q);
-        fnl_mont_bound(av, bv, tl, N(), rr, q);
+        fnl_lin();
+        fnl_mont_stage(a@, b@, z0, z_low@, t1@, t_low@, t@, sum@, c, r0);
+        lemma_val4_bounds(r0);
+        // boundary point of the comparison below: hand the limbs to the solver (val4 is injective)
+        if val4(r0) == val4(SM2_N@) { lemma_val4_inj(r0, SM2_N@); }
     }
     if c {
         r = u256_add(&r, &SM2_N_NEG).0;
@@ -358,13 +554,8 @@ fn mont_mul(a: &U256, b: &U256) -> (res: U256)
     }
     proof {
         lemma_val4_bounds(r@);
-        let e: int = if c || val4(r0) >= N() { 1 } else { 0 };
-        assert(val4(r@) == q - e * N());
-        fnl_mont_congr(av * bv, tl, q, e, val4(r@), N(), r256());
-        fnl_mont_decode(av, bv, val4(r@), r256(), RINV_N(), N());
-        fnl_cancel(val4(r@), r256(), RINV_N(), N());
-        fnl_mod_mul_cong(val4(r@) * r256(), av * bv, RINV_N(), N());
-        fnl_small_mod(val4(r@), N());
+        fnl_digits_any(r0, r@);
+        fnl_mont_final(val4(a@), val4(b@), q, val4(r@));
     }
     r
 }
@@ -438,3 +629,12 @@ fn fn_pow(a: &U256, e: &U256) -> (r: U256)
     r
 }
 
+
+//@props C11 C20
+fn fn_inv(a: &U256) -> (r: U256)
+    requires val4(a@) < N()
+    ensures val4(r@) == inv_n(val4(a@)),
+{
+    proof { lemma_fn_consts(); lemma_params(); }
+    fn_pow(a, &SM2_N_MINUS_TWO)
+}
